@@ -151,7 +151,16 @@ def run(ctx):
             # known: --wrap=S with no __wrap_S anywhere: GNU ld reports __wrap_S undefined, wild binds to S
             no_wrap_def = any(not any(en[0] == "D" and en[1] == 1000 + s for f in files for en in f["entries"]) and
                               any(en[0] == "U" and en[1] == s for f in files for en in f["entries"]) for s in W)
-            if no_wrap_def and v == "err:undef":
+            # the same defect seen through WEAK references to S: GNU ld redirects them to the (undefined) __wrap_S, which leaves them
+            # unbound; wild leaves them bound to S. Recognised when the two outcomes differ only at references to such names.
+            missing = {s_ for s_ in W if not any(en[0] == "D" and en[1] == 1000 + s_ for f in files for en in f["entries"])}
+            only_missing_refs = False
+            if no_wrap_def and not v.startswith("err") and not impl[i].startswith("err"):
+                a_, b_ = impl[i].split(), v.split()
+                if len(a_) == len(b_) and a_[0] == b_[0]:
+                    diff = [x for x, y in zip(a_, b_) if x != y]
+                    only_missing_refs = bool(diff) and all(int(x.split("=")[0].split(".")[1]) in missing for x in diff)
+            if no_wrap_def and (v == "err:undef" or only_missing_refs):
                 ctx.violation("wrap:missing-wrap-definition", "--wrap=S without any definition of __wrap_S: references to S stay bound to S; GNU ld redirects them and reports __wrap_S undefined",
                               {"request": reqs[i], "link_line": line, "wild": impl[i], "ld": v})
                 continue
